@@ -531,6 +531,8 @@ impl Driver {
                         bad.push((sig.into(), format!("{when}: frame {} content differs ({} bytes vs reference {} bytes)", mf.id, bytes.len(), mf.canonical.len())));
                     }
                 }
+                // the payload of an inactive frame is reclaimed by vacuum: nothing to read any more
+                Ok(Err(_)) if mf.status != MStatus::Active && self.vacuumed => {}
                 Ok(Err(e)) => bad.push(("frame-content-unreadable".into(), format!("{when}: frame_canonical_payload({}) -> {e}", mf.id))),
                 Err(p) => bad.push(("panic:frame-content".into(), format!("{when}: frame_canonical_payload({}) panicked: {p}", mf.id))),
             }
@@ -842,6 +844,69 @@ impl Driver {
         }
     }
 
+    /// Logical observation of the memory (C42/C40/C23/C28): frame table, exact content of active
+    /// frames, timeline, search answers per stored word, vector answers.
+    pub fn observe(&mut self) -> Value {
+        let model = self.model.clone();
+        let Some(mem) = self.mem.as_mut() else { return json!(null) };
+        let mut frames = Vec::new();
+        for id in 0..mem.frame_count() as u64 {
+            if let Ok(f) = mem.frame_by_id(id) {
+                let active = f.status == FrameStatus::Active;
+                let content = if active { mem.frame_canonical_payload(id).ok().map(|b| sha256_hex(&b)) } else { None };
+                frames.push(json!({"id": id, "status": format!("{:?}", f.status), "uri": f.uri, "role": format!("{:?}", f.role), "ts": f.timestamp, "parent": f.parent_id, "supersedes": f.supersedes, "superseded_by": f.superseded_by, "tags": f.tags, "labels": f.labels, "title": f.title, "track": f.track, "content": content}));
+            }
+        }
+        let timeline: Vec<(i64, u64)> = mem.timeline(TimelineQuery::builder().no_limit().build()).map(|v| v.into_iter().map(|e| (e.timestamp, e.frame_id)).collect()).unwrap_or_default();
+        let mut searches = serde_json::Map::new();
+        let mut words: Vec<String> = model.frames.iter().filter_map(|f| f.word.clone()).collect();
+        words.push("ordinary".into());
+        words.sort();
+        words.dedup();
+        for w in words {
+            for no_sketch in [false, true] {
+                let req = memvid_core::SearchRequest { query: w.clone(), top_k: 50, snippet_chars: 80, uri: None, scope: None, cursor: None, as_of_frame: None, as_of_ts: None, no_sketch, acl_context: None, acl_enforcement_mode: Default::default() };
+                let ans = match guard(|| mem.search(req)) {
+                    Ok(Ok(r)) => {
+                        let mut ids: Vec<(u64, usize, usize)> = r.hits.iter().map(|h| (h.frame_id, h.range.0, h.range.1)).collect();
+                        ids.sort();
+                        json!(ids)
+                    }
+                    Ok(Err(_)) => json!("error"),
+                    Err(p) => json!(format!("panic: {p}")),
+                };
+                searches.insert(format!("{w}|{no_sketch}"), ans);
+            }
+        }
+        let mut vecs = Vec::new();
+        for e in model.frames.iter().filter_map(|f| f.embedding.clone()).take(3) {
+            let ans = match guard(|| mem.search_vec(&e, 50)) {
+                Ok(Ok(h)) => json!(h.iter().map(|x| (x.frame_id, x.distance as f64)).collect::<Vec<_>>()),
+                Ok(Err(_)) => json!("error"),
+                Err(p) => json!(format!("panic: {p}")),
+            };
+            vecs.push(ans);
+        }
+        json!({"frames": frames, "timeline": timeline, "search": searches, "vec": vecs})
+    }
+
+    /// C42: compare two observations, reporting which part changed.
+    pub fn compare_observations(&mut self, what: &str, before: &Value, after: &Value) {
+        for part in ["frames", "timeline", "search", "vec"] {
+            if before[part] != after[part] {
+                // find the first differing element for the message
+                let detail = if part == "frames" {
+                    let b = before[part].as_array().cloned().unwrap_or_default();
+                    let a = after[part].as_array().cloned().unwrap_or_default();
+                    b.iter().zip(a.iter()).find(|(x, y)| x != y).map(|(x, y)| format!("before {x} after {y}")).unwrap_or_else(|| format!("{} vs {} frames", b.len(), a.len()))
+                } else {
+                    format!("before {} after {}", before[part], after[part]).chars().take(300).collect()
+                };
+                self.violation(&format!("{what}:changed-{part}"), format!("{what} changed the {part} observation: {detail}"));
+            }
+        }
+    }
+
     pub fn check_listing(&mut self, when: &str) {
         let l = list_dir(&self.dir);
         if l != vec!["m.mv2".to_string()] {
@@ -1042,6 +1107,76 @@ pub fn exec_op(d: &mut Driver, op: &str) -> bool {
                 }
             }
             d.outcomes.push(format!("bulk:{n}"));
+            true
+        }
+        "verify" => {
+            // close, verify(deep) must report Passed, open again
+            let m = d.mem.take();
+            drop(m);
+            match guard(|| Memvid::verify(&d.path, true)) {
+                Err(p) => d.violation("panic:verify", p),
+                Ok(Err(e)) => d.violation("verify-failed", format!("verify returned Err: {e}")),
+                Ok(Ok(r)) => {
+                    d.outcomes.push(format!("verify:{:?}", r.overall_status));
+                    if r.overall_status != memvid_core::VerificationStatus::Passed {
+                        let failed: Vec<String> = r.checks.iter().filter(|c| c.status == memvid_core::VerificationStatus::Failed).map(|c| format!("{}: {:?}", c.name, c.details)).collect();
+                        d.violation("verify-not-passed", format!("verify(deep) = {:?}: {failed:?}", r.overall_status));
+                    }
+                }
+            }
+            match guard(|| Memvid::open(&d.path)) {
+                Ok(Ok(m)) => {
+                    d.mem = Some(m);
+                    d.model.materialise();
+                    d.quiescent("after verify+open");
+                }
+                Ok(Err(e)) => d.violation("open-failed", format!("open after verify: Err: {e}")),
+                Err(p) => d.violation("panic:open", p),
+            }
+            true
+        }
+        "vacuum" if d.cfg.prop == "C42" => {
+            // materialise first so that the comparison is between two committed states
+            d.commit();
+            let before = d.observe();
+            let Some(mem) = d.mem.as_mut() else { die("vacuum without handle") };
+            match guard(|| mem.vacuum()) {
+                Err(p) => d.violation("panic:vacuum", p),
+                Ok(Err(e)) => d.violation("vacuum-failed", format!("Err: {e}")),
+                Ok(Ok(())) => {
+                    d.vacuumed = true;
+                    d.outcomes.push("vacuum:ok".into());
+                    let after = d.observe();
+                    d.compare_observations("vacuum", &before, &after);
+                    d.model.materialise();
+                    d.quiescent("after vacuum");
+                }
+            }
+            true
+        }
+        "doctor" if d.cfg.prop == "C42" && parts.get(1) == Some(&"vacuum") => {
+            d.commit();
+            let before = d.observe();
+            let m = d.mem.take();
+            drop(m);
+            let opts = memvid_core::DoctorOptions { vacuum: true, ..Default::default() };
+            match guard(|| Memvid::doctor(&d.path, opts)) {
+                Err(p) => d.violation("panic:doctor", p),
+                Ok(Err(e)) => d.violation("doctor-failed", format!("Err: {e}")),
+                Ok(Ok(r)) => d.outcomes.push(format!("doctor:{:?}", r.status)),
+            }
+            match guard(|| Memvid::open(&d.path)) {
+                Ok(Ok(m)) => {
+                    d.mem = Some(m);
+                    d.vacuumed = true;
+                    let after = d.observe();
+                    d.compare_observations("doctor-vacuum", &before, &after);
+                    d.model.materialise();
+                    d.quiescent("after doctor(vacuum)+open");
+                }
+                Ok(Err(e)) => d.violation("open-failed", format!("open after doctor(vacuum): Err: {e}")),
+                Err(p) => d.violation("panic:open", p),
+            }
             true
         }
         "vacuum" => {
